@@ -64,13 +64,17 @@ def check(c):
             expected.append(node.index)
             p = node.estimator.predict_proba(Q[r:r + 1])
             nxt = node.above if p[0, 1] > node.threshold else node.below
+            if abs(p[0, 1] - node.threshold) <= 1e-9 and node.above is not None and node.below is not None:
+                # tie within rounding: the code evaluates the member classifier on a batch, this harness on one row, and BLAS
+                # may round the two differently (thresholds of 'intercept_sort_always' ARE training probabilities): either child
+                nxt = node.above if path[r, node.above.index] != 0 else node.below
             if nxt is None:
                 break
             node = nxt
         marked = sorted(numpy.where(path[r] != 0)[0].tolist())
         if marked != sorted(expected):
             return dict(**{"class": "decision-path"}, what="row %d: marked nodes %r, path %r" % (r, marked, expected))
-        if not numpy.allclose(P[r], p[0], rtol=0, atol=1e-12):
+        if not numpy.allclose(P[r], p[0], rtol=0, atol=1e-9):
             return dict(**{"class": "proba-vs-path"}, what="row %d: predict_proba is not the classifier ending its path (node %d)" % (r, node.index))
     return None
 
